@@ -121,9 +121,9 @@ def family():
         "rec", "enumdefault")
     # references and namespaces
     add("map_named_twice", _rec("Mt", [f("one", _rec("It", [f("v", "int")])), f("m", {"type": "map", "values": "It"}),
-                                      f("again", "It")]), "ref", "mapref")
+                                      f("again", "It")]), "ref", "heavy")
     add("map_defines_named", _rec("Md", [f("m", {"type": "map", "values": _enum("Em")}), f("e", "Em"),
-                                        f("xs", {"type": "array", "items": "Em"})]), "ref", "mapref")
+                                        f("xs", {"type": "array", "items": "Em"})]), "ref", "heavy")
     add("ref_after_def", _rec("Ref", [f("first", _rec("Pt", [f("x", "int")])), f("second", "Pt"),
                                      f("many", {"type": "array", "items": "Pt"})]), "ref")
     add("ns_inherit", _rec("Outer", [f("in", _rec("Inner", [f("v", "int")])), f("again", "Inner"),
@@ -153,6 +153,8 @@ def select(tier, seed, want=None, extra_tags=()):
     rng = random.Random(seed)
     must = {}
     for x in F:
+        if "heavy" in x[1]:
+            continue  # symbolic maps of named types: explored by the checks that list them explicitly (C12), thorough elsewhere
         for t in x[1]:
             must.setdefault(t, []).append(x)
     chosen = {}
